@@ -355,6 +355,7 @@ type effects struct {
 	recvWrites []string // writes rooted at the receiver
 	regRecv    bool     // GlobalRegistry.Add(receiver, …)
 	regResult  bool     // GlobalRegistry.Add(<new schema>, …)
+	checkCalls []string // methods called on check OBJECTS taken from a Checks slice (shared by pointer with the receiver)
 	helpers    []string // helpers / delegations inlined, in call order
 	unknown    []string // constructs the interpreter could not follow
 }
@@ -495,6 +496,8 @@ func (f *frame) writeTo(e ast.Expr, rhs *av, what string) {
 			if field == "internals" && rhs != nil && rhs.ti != nil {
 				x.ti = rhs.ti
 			}
+		case "checkobj":
+			f.eff.recvWrites = append(f.eff.recvWrites, what+" through a shared check object ."+field)
 		case "fresh", "ctor", "nil", "other", "arg", "append":
 			// a write into something the method made itself (or into an argument: not the receiver)
 		default:
@@ -597,11 +600,12 @@ func (f *frame) eval(e ast.Expr) *av {
 		v := f.eval(x.X)
 		var out *av
 		for _, a := range v.flat() {
-			switch a.kind {
-			case "rfield", "arg", "fresh", "corefield":
-				out = join(out, mk("other")) // an element (member schema identity, scalar)
+			switch {
+			case a.kind == "corefield" && a.path == "Checks":
+				// Internals.Clone copies the SLICE: the check objects are shared by pointer with the receiver and every relative
+				out = join(out, mk("checkobj"))
 			default:
-				out = join(out, mk("other"))
+				out = join(out, mk("other")) // an element (member schema identity, scalar)
 			}
 		}
 		return out
@@ -684,6 +688,8 @@ func (f *frame) sel(a *av, name string) *av {
 		return mk("other")
 	case "arg":
 		return mk("arg")
+	case "checkobj":
+		return mk("checkobj") // a part of a shared check object
 	case "fresh":
 		if v := a.flds[name]; v != nil {
 			return v
@@ -1101,6 +1107,7 @@ func (f *frame) methodCall(a *av, name string, c *ast.CallExpr, argv []*av) *av 
 		sub.block(fd.Body.List)
 		f.eff.helpers = append(f.eff.helpers, "."+name)
 		f.eff.regResult = f.eff.regResult || sub.eff.regResult || sub.eff.regRecv
+		f.eff.checkCalls = append(f.eff.checkCalls, sub.eff.checkCalls...)
 		var out *av
 		for _, r := range sub.rets {
 			for _, x := range r.flat() {
@@ -1141,6 +1148,12 @@ func (f *frame) methodCall(a *av, name string, c *ast.CallExpr, argv []*av) *av 
 	case "ctor":
 		// a method called on a constructor's result (Optional(z).Describe(…)): again new
 		return a
+	case "checkobj":
+		if name == "Zod" {
+			return mk("checkobj") // the check's internals pointer: still the shared object
+		}
+		f.eff.checkCalls = append(f.eff.checkCalls, name)
+		return mk("other")
 	case "rfield", "arg", "other", "fresh", "corefield", "append", "nil":
 		return mk("other")
 	}
@@ -1262,12 +1275,17 @@ func (f *frame) stmt(s ast.Stmt) {
 		f.loop--
 	case *ast.RangeStmt:
 		src := f.eval(x.X)
-		_ = src
+		elem := mk("other")
+		for _, a := range src.flat() {
+			if a.kind == "corefield" && a.path == "Checks" {
+				elem = mk("checkobj")
+			}
+		}
 		if id, ok := x.Key.(*ast.Ident); ok {
 			f.set(id.Name, mk("other"))
 		}
 		if id, ok := x.Value.(*ast.Ident); ok {
-			f.set(id.Name, mk("other"))
+			f.set(id.Name, elem)
 		}
 		f.loop++
 		f.branch(func() { f.block(x.Body.List) })
@@ -1328,6 +1346,7 @@ type Row struct {
 	RegRecv, RegResult bool
 	Helpers            []string
 	Unknown            []string
+	CheckCalls         []string // methods called on shared check objects
 }
 
 func isSchemaResult(t ast.Expr) bool {
@@ -1385,7 +1404,7 @@ func (p *prog) analyse(t *typeInfo, owner *typeInfo, fd *ast.FuncDecl) Row {
 	}
 	fr.block(fd.Body.List)
 	row := Row{Type: t.name, Method: fd.Name.Name, File: owner.file, Owner: owner.name, RecvWrites: uniq(eff.recvWrites),
-		RegRecv: eff.regRecv, RegResult: eff.regResult, Helpers: uniq(eff.helpers), Unknown: eff.unknown}
+		RegRecv: eff.regRecv, RegResult: eff.regResult, Helpers: uniq(eff.helpers), Unknown: eff.unknown, CheckCalls: uniq(eff.checkCalls)}
 	seen := map[string]bool{}
 	for _, r := range fr.rets {
 		for _, a := range r.flat() {
@@ -1610,8 +1629,8 @@ func Lean(rows []Row) string {
 			if j == end-1 {
 				sep = ""
 			}
-			fmt.Fprintf(&w, "  ⟨%s, %s, %s, [%s], [%s], %s, %s, %s⟩%s\n", q(r.Type), q(r.Method), q(r.Owner), strings.Join(rs, ", "),
-				strings.Join(ws, ", "), b(r.RegRecv), b(r.RegResult), qlist(r.Unknown), sep)
+			fmt.Fprintf(&w, "  ⟨%s, %s, %s, [%s], [%s], %s, %s, %s, %s⟩%s\n", q(r.Type), q(r.Method), q(r.Owner), strings.Join(rs, ", "),
+				strings.Join(ws, ", "), b(r.RegRecv), b(r.RegResult), qlist(r.Unknown), qlist(r.CheckCalls), sep)
 		}
 		w.WriteString("]\n\n")
 		n++
@@ -1676,6 +1695,9 @@ func Dump(rows []Row) string {
 		}
 		if len(r.Unknown) > 0 {
 			fmt.Fprintf(&w, " UNKNOWN=%v", r.Unknown)
+		}
+		if len(r.CheckCalls) > 0 {
+			fmt.Fprintf(&w, " CHECKCALLS=%v", r.CheckCalls)
 		}
 		w.WriteString("\n")
 	}
